@@ -73,6 +73,10 @@ func (h *stackHandler) ServeHTTP(w http.ResponseWriter, req *http.Request) {
 	for _, hn := range list(sc, "hdrs") {
 		w.Header().Add(hn.(string), "h-"+hn.(string))
 	}
+	if boolOr(sc, "rawmap", false) { // documented net/http idioms: nil value suppresses an automatic header; keys may be written verbatim
+		w.Header()["Date"] = nil
+		w.Header()["x-verbatim-key"] = []string{"42"}
+	}
 	if st := numOr(sc, "status", 200); st != 0 {
 		w.WriteHeader(st)
 	}
@@ -248,6 +252,23 @@ func runStack(sc Scenario, tr *Trace, seed int64) {
 			}
 			if strings.Join(got.hdr[k], "|") != strings.Join(v, "|") {
 				hdrsEq = false
+			}
+		}
+		if boolOr(script, "rawmap", false) {
+			// the handler suppressed Date: it must be absent (or present) in both; on the in-memory recorder header keys are
+			// visible verbatim and must be relayed verbatim
+			if (len(got.hdr["Date"]) > 0) != (len(bare.hdr["Date"]) > 0) {
+				hdrsEq = false
+			}
+			if strOr(st, "via", "server") == "recorder" {
+				for k, v := range bare.hdr {
+					if skip[k] && k != "Date" {
+						continue
+					}
+					if gv, ok := got.hdr[k]; !ok || (v == nil) != (gv == nil) {
+						hdrsEq = false
+					}
+				}
 			}
 		}
 		var extra []string
